@@ -137,7 +137,7 @@ Definition csign (cv : conv) (is_source : bool) (i : K) : K :=
 Inductive rkind := RImm | RIsrc | RBranch (is_source : bool) | RNone.
 Definition report (cv : conv) (rk : rkind) (c : sctx K) (V0 Zr : K) (v ib : Z -> K) : K :=
   match rk with
-  | RImm => (vv v (p0 c) - vv v (p1 c) - V0) / Zr
+  | RImm => csign cv false ((vv v (p0 c) - vv v (p1 c) - V0) / Zr)
   | RIsrc => csign cv true (- par c pIsc)
   | RBranch s => csign cv s (ib (bown c))
   | RNone => 0
@@ -148,7 +148,7 @@ Theorem report_RC_passive c V0 Zr v ib r :
   Zr <> 0 -> Yeff c * Zr = 1 ->
   V0 = (if akind_eqb (kind c) KIvp && has_ic c then par c pIsc else 0) * Zr ->
   drawn_RC c v ib r = thru (p0 c) (p1 c) r (report Passive RImm c V0 Zr v ib).
-Proof. intros Hz HY HV. unfold drawn_RC, report, thru, dV01. rewrite HV.
+Proof. intros Hz HY HV. unfold drawn_RC, report, csign, thru, dV01. rewrite HV.
   set (isc := if akind_eqb (kind c) KIvp && has_ic c then par c pIsc else 0).
   assert (Yeff c = 1 / Zr) as -> by (rewrite <- HY; field; exact Hz). field. exact Hz. Qed.
 Theorem report_branch_passive c V0 Zr v ib r s :
@@ -164,5 +164,10 @@ Theorem report_hybrid c V0 Zr v ib rk :
               | RBranch true => - report Passive rk c V0 Zr v ib
               | _ => report Passive rk c V0 Zr v ib end.
 Proof. destruct rk as [| |[]|]; reflexivity. Qed.
+(* the active convention flips every reported current (so that KCL and the
+   constitutive relations hold in the flipped orientation for all components alike) *)
+Theorem report_active c V0 Zr v ib rk :
+  report Active rk c V0 Zr v ib = - report Passive rk c V0 Zr v ib.
+Proof. destruct rk as [| |[]|]; unfold report, csign; ring. Qed.
 End Report.
 Arguments csign {K}. Arguments report {K}.
